@@ -235,6 +235,14 @@ def run_c04(rep, tier):
     for n in (7089, 7090, 4296, 4297, 2953, 2954, 1817, 1818):
         mode = {7089: 'numeric', 7090: 'numeric', 4296: 'alphanumeric', 4297: 'alphanumeric', 2953: 'byte', 2954: 'byte', 1817: 'kanji', 1818: 'kanji'}[n]
         calls.append(call('make', gen.content_for_mode(r, mode, n)))
+    # a requested version above the smallest fitting one, in the same and in a higher character-count range (1-9 / 10-26 / 27-40), with the
+    # content at / one character above what the HIGHER levels of that version hold: the level may be raised, the content never cut
+    for v in (2, 9, 10, 11, 26, 27, 28, 40) if tier == 'quick' else range(2, 41):
+        for mode in ('numeric', 'alphanumeric', 'byte', 'kanji'):
+            for e in ('M', 'Q', 'H'):
+                for n in (T.max_chars(v, e, mode), T.max_chars(v, e, mode) + 1):
+                    for kw in ({}, {'error': 'L'}) if e != 'M' else ({},):
+                        calls.append(call('make', gen.content_for_mode(r, mode, n), version=v, **kw))
     calls += gen.eci_boundary_calls(call, tier == 'quick')
     calls += gen.multipart_boundary_calls(call, tier == 'quick')
     obs = symobs.observe_many(calls, props=['C04'])
@@ -382,6 +390,13 @@ def c07_calls(tier, r):
         calls.append(call('make', gen.utf8_text(r, n), eci=True))
         calls.append(call('make', gen.kanji(r, n).encode('shift_jis'), eci=True))
         calls.append(call('make', int(gen.digits(r, n)) + 10 ** n))
+    # characters that str.isdigit() / isdecimal() / isalnum() / upper() take for digits and letters but that are none in the sense of ISO
+    # Table 5 / 6: full-width digits and letters (Kanji mode), Arabic-Indic and Devanagari digits (UTF-8 bytes), superscripts, fractions
+    # and Roman numerals (Latin-1 / UTF-8 bytes); a requested numeric / alphanumeric mode must refuse them
+    for txt in ('\uff11\uff12\uff13', '\u0661\u0662\u0663', '\u00b2\u00b3', '2\u00b3', '\u00b2', '\u0967\u0968\u0969', '\uff21\uff22\uff23', '\u2167', '\u00bd',
+                '1\uff12', '\uff11 2', 'A\uff22', '\u2460\u2461', '\u0660', '12\u0663', '\u00b9\u00b2\u00b3456', '\uff10' * 8, 'ǅ', 'ß', 'ı'):
+        for kw in ({}, {'micro': False}, {'mode': 'numeric'}, {'mode': 'alphanumeric'}, {'mode': 'numeric', 'micro': False}, {'eci': True}):
+            calls.append(call('make', txt, **kw))
     # kanji content with the encoding given in various spellings (no requested mode): still the most compact mode
     for enc in ('shift_jis', 'Shift_JIS', 'sjis', 'shift-jis', 'SJIS', 'cp932'):
         calls.append(call('make', gen.kanji(r, 3), encoding=enc))
